@@ -435,13 +435,23 @@ def run_algebra(ctx, rng, idx):
     P[:, 0] += 0.1
     P /= P.sum(axis=1, keepdims=True)
     Q = rng.random((3, k)) + 0.05
+    if rng.random() < 0.4:
+        # exact zeros in Q as well (shared with P or not): a cell with
+        # P > 0 = Q makes the divergence +inf, never zero or negative
+        Q[rng.random((3, k)) < 0.25] = 0
+        Q[:, 0] += 0.05
     Q /= Q.sum(axis=1, keepdims=True)
     try:
         d = np.asarray(entropy.kl_divergence(P, Q, base=np.e))
         d0 = np.asarray(entropy.kl_divergence(P, P.copy()))
-        refd = np.array([sum(p * np.log(p / q) for p, q in zip(Pr, Qr)
-                             if p > 0) for Pr, Qr in zip(P, Q)])
-        if np.any(d < -tol) or np.abs(d - refd).max() > 1e-9:
+        refd = np.array([sum((p * np.log(p / q) if q > 0 else np.inf)
+                             for p, q in zip(Pr, Qr) if p > 0)
+                         for Pr, Qr in zip(P, Q)])
+        fin = np.isfinite(refd)
+        ctx.count('kl_infinite_expected', int((~fin).sum()))
+        if np.any(np.isnan(d)) or np.any(d < -tol) or \
+                not np.array_equal(np.isposinf(d), ~fin) or (
+                fin.any() and np.abs(d[fin] - refd[fin]).max() > 1e-9):
             bad('kl-wrong', 'kl %s reference %s' % (d, refd))
         if np.abs(d0).max() > tol:
             bad('kl-not-zero-for-equal', '%s' % d0)
@@ -449,6 +459,62 @@ def run_algebra(ctx, rng, idx):
             bad('kl-zero-for-different', '%s' % d)
     except Exception as e:  # noqa
         bad('kl-raised', '%s: %s' % (type(e).__name__, e))
+    # the same quantity through the MSM-level entry points
+    try:
+        Pm = rng.random((k, k)) + 0.02
+        Pm[rng.random((k, k)) < 0.2] = 0
+        Pm[np.arange(k), (np.arange(k) + 1) % k] += 0.1
+        Pm /= Pm.sum(axis=1, keepdims=True)
+        Qm = rng.random((k, k)) + 0.02
+        if rng.random() < 0.3:
+            Qm[rng.random((k, k)) < 0.15] = 0
+            Qm[np.arange(k), (np.arange(k) + 1) % k] += 0.1
+        Qm /= Qm.sum(axis=1, keepdims=True)
+        refm = np.array([sum((p_ * np.log(p_ / q_) if q_ > 0 else np.inf)
+                             for p_, q_ in zip(Pr, Qr) if p_ > 0)
+                         for Pr, Qr in zip(Pm, Qm)])
+        pops = rng.random(k) + 0.05
+        pops /= pops.sum()
+        ps = np.asarray(entropy.relative_entropy_per_state(
+            Pm, Q=Qm, base=np.e), dtype=float)
+        tot = float(entropy.relative_entropy_msm(
+            Pm, Q=Qm, populations=pops.copy(), base=np.e))
+        sub = np.sort(rng.choice(k, size=int(rng.integers(1, k + 1)),
+                                 replace=False))
+        pss = np.asarray(entropy.relative_entropy_per_state(
+            Pm, Q=Qm, state_subset=sub, base=np.e), dtype=float)
+        ctx.count('relative_entropy_msm_checked')
+
+        def same(a, b):
+            a, b = np.asarray(a, dtype=float), np.asarray(b, dtype=float)
+            f = np.isfinite(b)
+            return a.shape == b.shape and not np.any(np.isnan(a)) and \
+                np.array_equal(np.isposinf(a), ~f) and (
+                    not f.any() or np.abs(a[f] - b[f]).max() < 1e-9)
+        if not same(ps, refm):
+            bad('relative-entropy-per-state', '%s reference %s' % (ps, refm))
+        if not same(pss, refm[sub]):
+            bad('relative-entropy-per-state[subset]', '%s reference %s' % (
+                pss, refm[sub]))
+        if not same([tot], [float(np.sum(pops * refm))]):
+            bad('relative-entropy-msm', '%s reference %s' % (
+                tot, float(np.sum(pops * refm))))
+        j1 = np.asarray(entropy.js_divergence(P, Q), dtype=float)
+        j2 = np.asarray(entropy.js_divergence(Q, P), dtype=float)
+        j0 = np.asarray(entropy.js_divergence(P, P.copy()), dtype=float)
+        M_ = 0.5 * (P + Q)
+
+        def klb2(A, B):
+            return np.array([sum(a * np.log2(a / b) for a, b in zip(Ar, Br)
+                                 if a > 0) for Ar, Br in zip(A, B)])
+        refj = 0.5 * klb2(P, M_) + 0.5 * klb2(Q, M_)
+        if np.any(~np.isfinite(j1)) or np.abs(j1 - refj).max() > 1e-9 or \
+                np.abs(j1 - j2).max() > 1e-9 or np.abs(j0).max() > tol or \
+                np.any(j1 < -tol) or np.any(j1 > 1 + 1e-9):
+            bad('js-wrong', 'js %s / %s reference %s, self %s' % (
+                j1, j2, refj, j0))
+    except Exception as e:  # noqa
+        bad('relative-entropy-raised', '%s: %s' % (type(e).__name__, e))
     if ok and fx != fy:
         ctx.nontriv('alg', X.tobytes(), Y.tobytes())
     if idx % 200 == 0:
